@@ -72,4 +72,17 @@ Section C02.
     WF g -> In x (names g) ->
     exists l, get_edges_for_node teqb tltb g x = Ok l /\ Permutation l (touching teqb g x).
   Proof. exact (get_edges_for_node_spec teqb tltb teqb_spec tltb_total). Qed.
+
+  (* successor / predecessor node lists: duplicate-free, exactly the nodes joined by a stored edge *)
+  Theorem C02_successor_nodes : forall (g : gstate) x,
+    WF g -> directed (sp g) = true -> In x (names g) ->
+    exists l, get_successor_nodes teqb g x = Ok l /\ NoDup (map nname l) /\
+              forall y, In y (map nname l) <-> group teqb g (x, y) <> None.
+  Proof. exact (get_successor_nodes_spec teqb tltb). Qed.
+
+  Theorem C02_predecessor_nodes : forall (g : gstate) x,
+    WF g -> directed (sp g) = true -> In x (names g) ->
+    exists l, get_predecessor_nodes teqb g x = Ok l /\ NoDup (map nname l) /\
+              forall y, In y (map nname l) <-> group teqb g (y, x) <> None.
+  Proof. exact (get_predecessor_nodes_spec teqb tltb). Qed.
 End C02.
